@@ -550,7 +550,7 @@ pub fn run_c05(run: &Run) {
         builtin_sources.push(Source::Ring(6, run.seed % 64, 64));
         builtin_sources.push(Source::Ring(7, run.seed % 2048, 2048));
         builtin_sources.push(Source::Ring(8, run.seed % 32768, 32768));
-        builtin_sources.push(Source::Sparse(run.seed * 1000, 48));
+        builtin_sources.push(Source::Sparse(run.seed * 1000, 24));
     }
     for src in builtin_sources {
         let name = format!("built-in heuristics x 3 entry points x native/hybrid: {}", src.name());
